@@ -11,7 +11,9 @@ LEAN_MODULES = ["Mouette.Props.C17"]
 REQUIRED_THEOREMS = ["gate_iff", "storage_agree", "lap_row_sums_zero", "interior_is_weighted_average",
                      "interior_is_weighted_average_div", "orient2d_swap", "orient2d_cycle", "orient2d_sign_affine",
                      "orient2d_zero_iff_collinear", "orient2d_inside", "square_boundary_on_square", "square_boundary_distinct",
-                     "square_boundary_cyclic_order", "square_boundary_length", "square_boundary_source"]
+                     "square_boundary_cyclic_order", "square_boundary_length", "square_boundary_source",
+                     "accepted_case_weighted_average", "circle_boundary_model", "circle_boundary_distinct", "circle_boundary_on_circle",
+                     "circle_boundary_convex_position", "circle_boundary_cyclic_order"]
 TRUSTED = [
     "Lean 4.33.0 kernel; axioms ⊆ {propext, Classical.choice, Quot.sound}",
     "hand-written model Mouette/Model/Tutte.lean (_initialize_boundary, Laplacian triplets, free/border partition, exact rational "
@@ -550,12 +552,18 @@ MANIFEST = {
                    "collinear, barycentric inside test (the certificate checker of the oracle); square target AFTER the repair: for every "
                    "border length n >= 4 the sequential array writes equal a closed form whose points lie on the unit square's boundary, "
                    "are pairwise distinct and follow the border order - and the same for the arrays assembled from the corner indices, "
-                   "ranges, index starts and affine expressions re-translated from tutte.py on every run (square_boundary_source). "
+                   "ranges, index starts and affine expressions re-translated from tutte.py on every run (square_boundary_source); "
+                   "circle target over the reals (Mathlib Real.cos/Real.sin): the exact positions (cos 2 pi i/n, sin 2 pi i/n) are on the unit "
+                   "circle, pairwise distinct, in strictly convex position (each is the unique maximiser of a linear functional and lies on "
+                   "no segment between two others) and any three taken in border order are strictly counter-clockwise; the driver's exact "
+                   "residual check R1 implies that every free vertex is at the weighted average of its neighbours for every border data "
+                   "(accepted_case_weighted_average), so interior_is_weighted_average applies to every case the driver accepts. "
                    "NOT proved - checked on every run: Tutte/Floater (every triangle has the same strict orientation: exact orient2d on "
                    "Fractions of the output floats, uniform weights always, cotangent weights when non-negative, square target when no "
                    "triangle has its three vertices on one side); that the solver's output solves the system (exact model solution compared "
-                   "at 1e-9*scale+1e-12, and the model's own solution re-checked exactly); circle positions (cos/sin are applied by the "
-                   "harness to the model's i/n); distinctness/order on the circle and for custom convex borders (oracle)."),
+                   "at 1e-9*scale+1e-12); that Gauss-Jordan always succeeds with a zero residual (re-checked exactly per case: R1); the float "
+                   "evaluation of cmath.rect (cos/sin are applied by the harness to the model's i/n); distinctness/order for custom convex "
+                   "borders (oracle)."),
     "level_note": ("Trusted: Lean kernel + propext/Classical.choice/Quot.sound, Mathlib tactic modules; the hand-written model tied to "
                    "tutte.py/laplacian_op.py by correspondence (disks with <= 30 interior vertices; larger ones oracle only) and by the "
                    "translated SQUARE branch; spsolve, cmath.rect, the cotangent attribute and extract_border_cycle are inputs; float "
